@@ -821,7 +821,13 @@ func inputKeys(tw *trace.Writer, rng *rand.Rand, names []string, npairs int, st 
 			if i%5 != 0 && len(all) > 20 {
 				continue
 			}
-			for _, prior := range [][]byte{{0x1b}, {0x1b, 0x1b}} {
+			priors := [][]byte{{0x1b}, {0x1b, 0x1b}}
+			if s[0] != 0x1b || len(s) > 1 {
+				// the same key with Alt (ESC prefix) came before, or another key with Alt: complete sequences, the decoder
+				// keeps nothing of them
+				priors = append(priors, append([]byte{0x1b}, s...), append([]byte{0x1b}, all[(i+7)%len(all)]...))
+			}
+			for _, prior := range priors {
 				var vp *tcell.VerifParser
 				decode(g.ti, "UTF-8", 80, 24, [][]byte{prior}, &vp)
 				r := decode(g.ti, "UTF-8", 80, 24, [][]byte{[]byte(s)}, &vp)
